@@ -166,7 +166,7 @@ PROPERTIES = {
         "scan_uncovered": True,
     },
     "C08": {
-        "level": "other",
+        "level": "proof",
         "verus_units": ["leaves", "decbin", "decbin128", "parsetop", "digitsint", "tokeniser", "decfrac", "powfrac", "parsepolicy@*"],
         "kani": ["parse::parse_u8_hex", "parse::parse_u8_oct", "parse::parse_u8_bin", "parse::parse_i8_hex", "parse::parse_error_kinds",
                  "parse::parse_u8_dec", "parse::parse_i8_dec", "parse::policy_forms_u4f4_dec", "parse::policy_forms_i4f4_hex"],
@@ -195,8 +195,8 @@ PROPERTIES = {
                        "classes of a grammar written independently of the tokeniser; complete within the bound, loops closed by unwinding assertions; "
                        "the policy forms of the public API (plain: overflow error; saturating: the bound on the literal's side; wrapping: the wrapped value) against the "
                        "overflowing form on every ASCII string of at most 4 bytes, I4F4 / U4F4, radix 10 / 16 (8 in thorough)",
-        "bounded_parts": ["`impl FromStr for F :: from_str` (a foreign trait's method, one line: `Self::from_str_radix(s, 10)`) is the only function of the parser not under a Verus contract: Kani policy_forms_*_dec "
-                          "(I4F4 / U4F4, ASCII strings of at most 4 bytes).  The policy forms themselves are proved in unit parsepolicy@<family> for all ten families (R24: tuple-pattern closures): FromStrRadix::from_str_radix / "
+        "bounded_parts": ["nothing of the parser is decided by a bounded check any more: `impl FromStr for F :: from_str` is re-homed (R11, gen= / err=) and proved in unit parsepolicy as well; the Kani harnesses "
+                          "(8-bit layouts, strings of at most 9 bytes; policy forms: I4F4 / U4F4, at most 4 bytes) are an independent cross-check with a separately written oracle and the counterexample generator, never counted as the proof.  The policy forms are proved in unit parsepolicy@<family> for all ten families (R24: tuple-pattern closures): FromStrRadix::from_str_radix / "
                           "saturating_ / wrapping_ / overflowing_from_str_radix and the fifteen inherent forwarders of macros_from_to.rs against pol_checked / pol_saturating / pol_wrapping / pol_overflowing of specs/parsepolicy.rs "
                           "(value in range or Overflow error; clamp to the bound on the literal's side; value mod 2^W; (value mod 2^W, flag iff out of range); any other string: the error kind of its first offending byte), "
                           "on the contract of from_str_iN / from_str_uN proved in unit parsetop (one text, contracts/fromstr_top.inc); the Kani policy harnesses remain as cross-check and counterexample generator"],
